@@ -49,6 +49,26 @@ structure GenCfg where
       (outside) the `DEQMustCheck` wrapper, so an excluded / unlisted field still decides the result
       through its nil-ness. -/
   deqNilBeforeMustCheck : Bool := true
+  /-- `true` (original emitter): copying a root slice type assigns the grown slice to the local
+      pointer variable (`l = &buf0`), so the destination stays as it was (Copy returns an empty slice). -/
+  copyRootSliceLost : Bool := true
+  /-- `true` (original emitter): copying a non-empty root map type into a nil map stores into the nil map
+      (`if l == nil` tests the root pointer, not the map). -/
+  copyRootMapPanics : Bool := true
+  /-- `true` (original emitter): pointer-to-scalar fields/elements/map values (`l = r`) and pointer map
+      keys are copied as pointers: the copy shares their targets with the source. -/
+  copyPtrShared : Bool := true
+  /-- `true` (original emitter): a nil pointer-to-struct slice element or map value is dereferenced. -/
+  copyNilElemPanics : Bool := true
+  /-- `true` (original emitter): `*string` fields, and `*[]byte` / `*[]T` / `*map` fields whose destination
+      pointer (or inner map) is nil, are written through without allocation (nil dereference). -/
+  copyNilDestPanics : Bool := true
+  /-- `true` (original emitter): Reset dereferences nil pointer-to-scalar fields and nil pointer
+      elements of slices. -/
+  resetNilPtrPanics : Bool := true
+  /-- `true` (original emitter): a non-nil pointer to an *empty* map or slice is not copied at all
+      (`if len(*r) > 0 {` wraps the allocation): the copy holds a nil pointer where the source does not. -/
+  copyEmptyPtrCollDropped : Bool := true
 deriving Repr, Inhabited
 
 /-- The configuration that mirrors the tree as it is (flags flip when a `fix:` commit lands). -/
@@ -65,6 +85,13 @@ def GenCfg.fixed : GenCfg where
   lcElemStopZero := false
   deqPtrLeafNilUnchecked := false
   deqNilBeforeMustCheck := false
+  copyRootSliceLost := false
+  copyRootMapPanics := false
+  copyPtrShared := false
+  copyNilElemPanics := false
+  copyNilDestPanics := false
+  resetNilPtrPanics := false
+  copyEmptyPtrCollDropped := false
 
 /-- After the nested block of a non-basic node: the "special case to take value by pointer"
 (compiler.go:964-975). Not emitted for the root (`v != "x"`). -/
